@@ -39,14 +39,14 @@ def line(dt, specs, pts, orders):
             + " %d %d %d" % tuple(orders))
 
 
-def one_case(run, specs, pts, orders, dt, transform=None):
+def one_case(run, specs, pts, orders, dt, transform=None, via_class=False):
     from gbasis.evals.eval import evaluate_basis
     from gbasis.evals.eval_deriv import evaluate_deriv_basis
 
     basis = make_basis(specs)
     rep = {"case": "evalderiv", "basis": core.describe_basis(specs), "points": pts.tolist(), "orders": list(orders),
-           "deriv_type": dt, "transform": None if transform is None else transform.tolist()}
-    run.case((dt, tuple(orders)) + sig(specs) + (len(pts), transform is not None),
+           "deriv_type": dt, "transform": None if transform is None else transform.tolist(), "via_class": via_class}
+    run.case((dt, tuple(orders), via_class) + sig(specs) + (len(pts), transform is not None),
              sample={"op": "evaluate_deriv_basis", "deriv_type": dt, "orders": list(orders),
                      "basis": core.describe_basis(specs), "npoints": len(pts)})
     count_basis(run, specs)
@@ -58,7 +58,23 @@ def one_case(run, specs, pts, orders, dt, transform=None):
     except ModelError as e:
         mexc = str(e)
     try:
-        impl = evaluate_deriv_basis(basis, pts, np.array(orders), transform=transform, deriv_type=dt)
+        if via_class:
+            # the documented class interface behind the wrapper: the same request must get the same answer (or rejection)
+            from gbasis.evals.eval_deriv import EvalDeriv
+            obj = EvalDeriv(basis)
+            types = [sh_.coord_type for sh_ in basis]
+            kw = dict(points=pts, orders=np.array(orders), deriv_type=dt)
+            if transform is not None:
+                impl = obj.construct_array_lincomb(transform, types, **kw)
+            elif all(t_ == "cartesian" for t_ in types):
+                impl = obj.construct_array_cartesian(**kw)
+            elif all(t_ == "spherical" for t_ in types):
+                impl = obj.construct_array_spherical(**kw)
+            else:
+                impl = obj.construct_array_mix(types, **kw)
+            run.count("via EvalDeriv class interface")
+        else:
+            impl = evaluate_deriv_basis(basis, pts, np.array(orders), transform=transform, deriv_type=dt)
         iexc = None
     except (ValueError, TypeError) as e:
         iexc = type(e).__name__
@@ -113,8 +129,54 @@ def check(run):
     pts = np.array([[0.3, 0.2, 0.1]])
     for dt, o in [("direct", (3, 0, 0)), ("bogus", (1, 0, 0)), ("Direct", (0, 0, 0)), ("direct", (0, 0, 3)), ("general", (3, 0, 0))]:
         one_case(run, [s], pts, o, dt)
+    # the same requests through the class interface (EvalDeriv.construct_array_*), all coordinate-type branches and lincomb
+    for k, (dt, o) in enumerate([("direct", (3, 0, 0)), ("direct", (0, 4, 1)), ("direct", (2, 1, 2)), ("general", (3, 1, 0)), ("bogus", (1, 0, 0)),
+                                 ("direct", (2, 1, 3)), ("general", (0, 0, 0)), ("direct", (1, 1, 1))]):
+        cs = []
+        specs2 = [rand_shell(rng, l, cs, nprim=2, sph=[False, True, k % 2 == 0][i]) for i, l in enumerate((0, 2, 1))]
+        if k % 4 == 3:
+            specs2 = [s_.copy(sph=bool(k % 8 == 3)) for s_ in specs2]
+        t2 = random_transform(rng, sum(s_.size for s_ in specs2)) if k % 3 == 2 else None
+        one_case(run, specs2, points_for(rng, specs2, 3), o, dt, t2, via_class=True)
     representation_cases(run)
+    from checks.common import sp_family, structured_transforms
+    for k, ls in enumerate([(0, 1), (0, 2), (1, 2), (0, 1, 2)]):
+        specs2 = sp_family(rng, ls, two_centres=True)
+        one_case(run, specs2 if k % 2 else list(reversed(specs2)), points_for(rng, specs2, 3 + k % 2), (k % 3, 1, 0), "general" if k % 2 else "direct")
+        run.count("SP-type shared exponent arrays")
+    specs2 = random_basis(rng, 2, 2, lmax=2)
+    for lab, T in structured_transforms(rng, sum(s_.size for s_ in specs2)):
+        one_case(run, specs2, points_for(rng, specs2, 3), (1, 0, 1), "general", T)
+        run.count("transform " + lab)
+    batch_independence(run)
 
+
+
+def batch_independence(run):
+    """the value at a point does not depend on which (or how many) other points are in the same call: one call with 70 001 points
+    (beyond any block size an implementation may use internally) against the same points evaluated in chunks, both back-ends"""
+    from gbasis.evals.eval import evaluate_basis
+    from gbasis.evals.eval_deriv import evaluate_deriv_basis
+    rng = run.rng
+    cs = []
+    specs = [rand_shell(rng, l, cs, nprim=1, nseg=1, exp_lo=0.2, exp_hi=2.0) for l in (0, 1)]
+    basis = make_basis(specs)
+    npts = 70001
+    g = np.random.default_rng(rng.randrange(2 ** 32))
+    pts = g.uniform(-2.5, 2.5, size=(npts, 3))
+    rep = {"case": "batch", "basis": core.describe_basis(specs)}
+    for name, f in (("evaluate_basis", lambda p: evaluate_basis(basis, p)),
+                    ("evaluate_deriv_basis(1,0,1)[general]", lambda p: evaluate_deriv_basis(basis, p, np.array([1, 0, 1]))),
+                    ("evaluate_deriv_basis(0,2,0)[direct]", lambda p: evaluate_deriv_basis(basis, p, np.array([0, 2, 0]), deriv_type="direct"))):
+        whole = f(pts)
+        parts = np.concatenate([f(pts[i:i + 9973]) for i in range(0, npts, 9973)], axis=1)
+        run.case(("batch", name))
+        run.count("batch independence " + name)
+        if whole.shape != parts.shape or np.abs(whole - parts).max() > 1e-13 * max(1.0, float(np.abs(parts).max())):
+            bad = int(np.argmax(np.abs(whole - parts).max(axis=0))) if whole.shape == parts.shape else -1
+            run.violation(f"{name}: one call with {npts} points differs from the same points evaluated in chunks (first difference at point "
+                          f"{bad}: {whole[:, bad].tolist() if bad >= 0 else whole.shape} vs {parts[:, bad].tolist() if bad >= 0 else parts.shape})",
+                          dict(rep, function=name, signature={"kind": "batch-independence"}))
 
 
 def representation_cases(run):
@@ -138,7 +200,10 @@ def replay(run, rep):
     if rep.get("case") == "representation":
         representation_cases(run)
         return len(run.violations) == n0
+    if rep.get("case") == "batch":
+        batch_independence(run)
+        return len(run.violations) == n0
     t = rep.get("transform")
     one_case(run, specs_from(rep), np.array(rep["points"]), tuple(rep["orders"]), rep["deriv_type"],
-             None if t is None else np.array(t))
+             None if t is None else np.array(t), via_class=bool(rep.get("via_class")))
     return len(run.violations) == n0
